@@ -6,11 +6,14 @@ from pyvc.core import Val, fresh
 from .types import OStr, OAny
 from .effects import ignore_call, log_call, nondet_bool
 
+TDescC = T.Rec('TDescC', ranks=T.Int, cores_per_rank=T.Int)
 TaskC  = T.Rec('TaskC', uid=T.Str, pilot=OStr, client_sandbox=OAny, endpoint_fs=OAny,
                resource_sandbox=OAny, session_sandbox=OAny, pilot_sandbox=OAny,
-               task_sandbox=OAny, task_sandbox_path=OAny)
+               task_sandbox=OAny, task_sandbox_path=OAny, description=T.Opt(TDescC), state=OStr)
 REG.optional_keys['TaskC'] = set(TaskC.fields) - {'uid'}
-PilotC = T.Rec('PilotC', uid=T.Str, state=OStr)
+PDescC = T.Rec('PDescC', cores=T.Int)
+PilotC = T.Rec('PilotC', uid=T.Str, state=OStr, description=T.Opt(PDescC))
+REG.optional_keys['PilotC'] = {'state', 'description'}
 PEntry = T.Rec('PilotEntry', role=OStr, state=OStr, pilot=T.Opt(PilotC), info=OAny)
 TaskCL = T.List(TaskC)
 PilotsM = T.Map(T.Str, PEntry)
